@@ -223,7 +223,9 @@ def vhdx(L, rnd):
         b'\0' * 20 + b''.join(ments)
     size = struct.pack('<Q', tok(L.get('size', '10G')))
     place = {}
-    if meta_off >= HDR_END:
+    # a pointer back into the region-table window is refused by the inspector; the table is written there all the same
+    # (behind the region entries), so that nothing but the pointer check stands between the stream and a verdict
+    if meta_off >= HDR_END or meta_off >= HDR_OFF + 16 + 32 * len(ents):
         place[meta_off] = mt
         io = meta_off + item_off
         if io >= meta_off + len(mt):
@@ -257,6 +259,7 @@ LINE = {
     'extent_path': b'RW 2048 FLAT "/etc/passwd" 0',
     'extent_relpath': b'RW 2048 FLAT "../../etc/passwd" 0',
     'junk': b'this line is not understood',
+    'junk_rwx': b'RWX 2048 SPARSE "disk.vmdk"',
     'junk_eq_space': b'some thing=value',
     'ct_mono': b'createType="monolithicSparse"',
     'ct_stream': b'createType="streamOptimized"',
@@ -290,6 +293,15 @@ def vmdk(L, rnd):
                             'extent_rw', 'blank', 'ddb'])
     desc = vmdk_descriptor(lines)
     desc_num = tok(L.get('desc_num', 20))
+    if L.get('fill') == 'exact' and any(str(x).startswith('ct_') for x in lines) and 0 < desc_num * 512 < (1 << 20):
+        # the text fills the announced sectors to the last byte - no NUL to look for - and ends, without a newline,
+        # in the createType line: every byte of the region is significant
+        ct = [x for x in lines if str(x).startswith('ct_')][0]
+        head = vmdk_descriptor([x for x in lines if x is not ct])
+        last = LINE[ct]
+        room = desc_num * 512 - len(head) - len(last)
+        if room >= 3:
+            desc = head + b'# ' + b'x' * (room - 3) + b'\n' + last
     desc_sec = tok(L.get('desc_sec', 1))
     sectors = tok(L.get('sectors', '2048'))
     footer = L.get('footer')
